@@ -59,3 +59,11 @@ impl Bvd {
     pub open spec fn alen(&self) -> usize { self.length }
     pub open spec fn abit(&self, i: int) -> bool { bit_at{X}(self.data@, i) }
 }
+impl Bvd {
+    /// r is the number of significant bits: index of the highest set bit plus one (0 for a zero vector)
+    pub open spec fn is_sig(&self, r: int) -> bool {
+        &&& 0 <= r <= self.length
+        &&& forall|i: int| r <= i < self.length ==> !bit_at{X}(self.data@, i)
+        &&& r > 0 ==> bit_at{X}(self.data@, r - 1)
+    }
+}
